@@ -2,14 +2,21 @@
 """Builds mutants/<name>.patch from mutants/table.py entries (pid, name, file, old, new) against /repo HEAD."""
 import os, sys, difflib, subprocess, importlib.util
 HERE = os.path.dirname(os.path.dirname(os.path.abspath(__file__)))
-spec = importlib.util.spec_from_file_location('table', os.path.join(HERE, 'mutants', 'table.py'))
-t = importlib.util.module_from_spec(spec); spec.loader.exec_module(t)
+import glob
+ALL = []
+for tp in sorted(glob.glob(os.path.join(HERE, 'mutants', 'table*.py'))):
+    spec = importlib.util.spec_from_file_location('table', tp)
+    t = importlib.util.module_from_spec(spec); spec.loader.exec_module(t)
+    ALL += list(t.MUTANTS)
+only = set(sys.argv[1:])
 bad = 0
-for pid, name, path, old, new in t.MUTANTS:
+for pid, name, path, old, new in ALL:
+    if only and pid not in only:
+        continue
     src = subprocess.run(['git', '-C', '/repo', 'show', 'HEAD:' + path], capture_output=True, text=True).stdout
     if src.count(old) != 1:
         print('!! %s %s: pattern occurs %d times' % (pid, name, src.count(old))); bad += 1; continue
     dst = src.replace(old, new)
     diff = ''.join(difflib.unified_diff(src.splitlines(True), dst.splitlines(True), 'a/' + path, 'b/' + path))
     open(os.path.join(HERE, 'mutants', '%s_%s.patch' % (pid, name)), 'w').write(diff)
-print('%d mutants written, %d bad' % (len(t.MUTANTS) - bad, bad))
+print('%d mutant entries, %d bad' % (len(ALL), bad))
